@@ -5,7 +5,7 @@ and whose accepted sockets are FakeSockets (ServerTls with a fake ssl context): 
 a 3-address universe (so peer addresses repeat), TLS handshakes needing 0-2 extra rounds,
 peer closes / peer data, removeIx (with and without shutclose), closeIx, shutdownIx /
 shutdownSendIx / shutdownReceiveIx, serviceAxes / serviceCxes / serviceConnects / serviceAll.
-Every sequence of <= 5 operations over an 8-operation alphabet is enumerated (both classes),
+Every sequence of <= 4 (thorough 6) operations over an 8-operation alphabet is enumerated (both classes),
 Hypothesis adds random histories up to 25 (thorough 60) steps.
 
 Oracle = reference model address -> live double, compared after every step:
@@ -31,7 +31,7 @@ from vp.net import doubles as D
 
 PROPERTY = "C26"
 LEVEL = "exploration"
-RULE = ("operation histories over Server and ServerTls on listen/socket doubles: exhaustive over all sequences of <= 5 ops "
+RULE = ("operation histories over Server and ServerTls on listen/socket doubles: exhaustive over all sequences of <= 4 (thorough 6) ops "
         "from an 8-op alphabet (accept from 2 addresses, service calls, remove/close/shutdown, peer close) + Hypothesis "
         "histories of <= 25 (thorough 60) ops over 3 addresses (accept with 0-2 extra TLS handshake rounds, serviceAxes/"
         "Cxes/Connects/All, peerclose, peerdata, removeIx shutclose True/False, closeIx, shutdown[Send|Receive]Ix, ops on "
@@ -284,8 +284,18 @@ def classes_of(tls, info, nops):
     return cls
 
 
+def _freeze():
+    """plan() runs in the parent just before the worker pool forks: move everything allocated so far
+    (ioflo, hypothesis) out of the collector's reach so that collections in the children do not touch
+    (and copy) the inherited pages - measured 3-10x faster shards on this VM."""
+    import gc
+    gc.collect()
+    gc.freeze()
+
+
 def plan(tier):
     import ioflo.aio.tcp.serving  # noqa: preload before fork
+    _freeze()
     shards = []
     for tls in (0, 1):
         for first in range(8):
@@ -302,7 +312,7 @@ def work(shard, seed, tier):
     if shard["part"] == "exh":
         alpha = alphabet(tls)
         n = 0
-        for length in range(1, 6):
+        for length in range(1, (5 if tier == "quick" else 7)):
             for rest in itertools.product(range(8), repeat=length - 1):
                 ops = [alpha[shard["first"]]] + [alpha[i] for i in rest]
                 case = {"tls": tls, "ops": ops}
@@ -313,9 +323,10 @@ def work(shard, seed, tier):
                     acc.fail(sig, what, case)
                 n += 1
         acc.exhaustive = True
-        acc.note("every history of <= 5 operations over the 8-operation alphabets enumerated for Server and ServerTls")
+        acc.note("every history of <= %d operations over the 8-operation alphabets enumerated for Server and ServerTls"
+                 % (4 if tier == "quick" else 6))
         return acc
-    n = 70 if tier == "quick" else 1600
+    n = 150 if tier == "quick" else 1600
     maxlen = 25 if tier == "quick" else 60
 
     def execute(ops):
